@@ -238,6 +238,8 @@ class URL:
     ) -> str:
         # The path is percent-decoded: keep a literal "%", "?" or "#" inside the path
         path = path.replace("%", "%25").replace("?", "%3F").replace("#", "%23")
+        # ... and a tab or line break, which URL parsing would silently delete
+        path = path.replace("\t", "%09").replace("\n", "%0A").replace("\r", "%0D")
 
         if host_header is not None:
             try:  # an unusable Host header (e.g. "[" or "a:b") is ignored
